@@ -48,9 +48,10 @@ type LifeScenario struct {
 	CloseFromBg        bool   `json:"close_from_bg"`          // the Close of cause "close" is called by a background handler
 	CancelEarly        string `json:"cancel_early"`           // "" | before | during : the context given to ConnectContext is cancelled before the call / while the (context-unaware) dialer is at work
 	SilentMs           int    `json:"silent_ms"`
-	PeerStalled        bool   `json:"peer_stalled"` // with slow_server: the peer never reads again (a write in flight returns only when the socket is closed)
-	TimeoutMs          int    `json:"timeout_ms"`   // Config.Timeout (0 = the scenario's default of 3 s): a legal, rarely tuned value
-	HoldMs             int    `json:"hold_ms"`      // the gated foreground handler keeps working this long after the cause (longer than Timeout, say)              // before the cause the server stays connected but silent for this long, never answering the client's PINGs (Timeout is set to a fifth of it)
+	PeerStalled        bool   `json:"peer_stalled"`    // with slow_server: the peer never reads again (a write in flight returns only when the socket is closed)
+	TimeoutMs          int    `json:"timeout_ms"`      // Config.Timeout (0 = the scenario's default of 3 s): a legal, rarely tuned value
+	OverlapConnect     bool   `json:"overlap_connect"` // two goroutines call Connect at about the same time while the client is down; the first one's dial takes a while
+	HoldMs             int    `json:"hold_ms"`         // the gated foreground handler keeps working this long after the cause (longer than Timeout, say)              // before the cause the server stays connected but silent for this long, never answering the client's PINGs (Timeout is set to a fifth of it)
 }
 
 type LifeResult struct {
@@ -289,7 +290,30 @@ func runLifeScenario(sc LifeScenario) LifeResult {
 		return res
 	}
 	lg.add("connect-call")
-	err := conn.ConnectContext(ctx)
+	var err error
+	if sc.OverlapConnect {
+		// exactly one of the two calls makes the connection, the other is refused; afterwards the client has ONE
+		// connection, and it is the one its goroutines read and write and Close closes
+		memconn.PresetDialDelay(url, 60*time.Millisecond)
+		errs := make(chan error, 2)
+		go func() { errs <- conn.ConnectContext(ctx) }()
+		time.Sleep(15 * time.Millisecond)
+		memconn.PresetDialDelay(url, 0)
+		go func() { errs <- conn.ConnectContext(ctx) }()
+		e1, e2 := <-errs, <-errs
+		switch {
+		case e1 != nil && e2 != nil:
+			err = e1
+		case e1 == nil && e2 == nil:
+			lg.add("connect-ret ok")
+			lg.add("connect-again ok")
+			res.Log = lg.evs
+			res.Notes = append(res.Notes, "two overlapping Connect calls both reported success")
+			return res
+		}
+	} else {
+		err = conn.ConnectContext(ctx)
+	}
 	if err != nil {
 		lg.add("connect-ret err")
 		res.Log = lg.evs
@@ -297,7 +321,21 @@ func runLifeScenario(sc LifeScenario) LifeResult {
 		return res
 	}
 	lg.add("connect-ret ok")
+	if sc.OverlapConnect {
+		lg.add("connect-again refused")
+	}
 	srv := <-conns
+	if sc.OverlapConnect {
+		// a second dial may have got through before its Connect was refused: the connection that counts is the one that
+		// carries the registration
+		select {
+		case other := <-conns:
+			if !srv.WaitLines(1, 300*time.Millisecond) && other.WaitLines(1, 300*time.Millisecond) {
+				srv = other
+			}
+		case <-time.After(100 * time.Millisecond):
+		}
+	}
 	if sc.SlowCloseMs > 0 {
 		srv.SetCloseDelay(time.Duration(sc.SlowCloseMs) * time.Millisecond)
 	}
